@@ -103,6 +103,22 @@ fn run(input: &[u8], o: &mut Out) {
     acc!("f32", |d| d.f32().map(|x| x.to_bits())); acc!("f64", |d| d.f64().map(|x| x.to_bits())); acc!("char", |d| d.char());
     #[cfg(feature = "half")]
     acc!("f16", |d| d.f16().map(|x| x.to_bits()));
+    // float items: the raw bit patterns through every float entry point (accessors, Decode impls, serde bridge)
+    if matches!(input.first(), Some(0xf9 ..= 0xfb)) {
+        macro_rules! bits32 { ($name:expr, $d:ident, $mk:expr, $e:expr, $pos:expr, $cls:expr) => {{ let mut $d = $mk; let r = $e; let p = $pos(&$d); o.rec($name, r.map(|x: f32| x.to_bits()).map_err($cls), p) }} }
+        macro_rules! bits64 { ($h:expr, $l:expr, $d:ident, $mk:expr, $e:expr, $pos:expr, $cls:expr) => {{
+            let mut $d = $mk; let r = $e; let p = $pos(&$d);
+            match r { Ok(x) => { let x: f64 = x; o.rec($h, Ok((x.to_bits() >> 32) as u32), p); o.rec($l, Ok(x.to_bits() as u32), p) } Err(e) => { let c = $cls(e); o.rec($h, Err(Cls(c.0, c.1)), p); o.rec($l, Err(c), p) } }
+        }} }
+        bits32!("X:f32", d, Decoder::new(input), d.f32(), |d: &Decoder| d.position(), |e: Error| eclass(&e));
+        bits64!("X:f64h", "X:f64l", d, Decoder::new(input), d.f64(), |d: &Decoder| d.position(), |e: Error| eclass(&e));
+        bits32!("XT:f32", d, Decoder::new(input), d.decode::<f32>(), |d: &Decoder| d.position(), |e: Error| eclass(&e));
+        bits64!("XT:f64h", "XT:f64l", d, Decoder::new(input), d.decode::<f64>(), |d: &Decoder| d.position(), |e: Error| eclass(&e));
+        bits32!("XS:f32", d, minicbor_serde::Deserializer::new(input), { let r: Result<f32, _> = serde::Deserialize::deserialize(&mut d); r }, |d: &minicbor_serde::Deserializer| d.decoder().position(), |e: minicbor_serde::error::DecodeError| sclass(&e));
+        bits64!("XS:f64h", "XS:f64l", d, minicbor_serde::Deserializer::new(input), { let r: Result<f64, _> = serde::Deserialize::deserialize(&mut d); r }, |d: &minicbor_serde::Deserializer| d.decoder().position(), |e: minicbor_serde::error::DecodeError| sclass(&e));
+        #[cfg(feature = "half")]
+        { let mut d = Decoder::new(input); let r = d.f16(); let p = d.position(); o.rec("X:f16", r.map(|x| x.to_bits() as u32).map_err(|e| eclass(&e)), p) }
+    }
     acc!("bytes", |d| d.bytes()); acc!("str", |d| d.str()); acc!("array", |d| d.array()); acc!("map", |d| d.map()); acc!("tag", |d| d.tag());
     acc!("null", |d| d.null()); acc!("undefined", |d| d.undefined()); acc!("simple", |d| d.simple()); acc!("datatype", |d| d.datatype());
     acc!("skip", |d| d.skip());
